@@ -134,6 +134,24 @@ def canonFrom (seenOther : Bool) : List Step → Bool
 
 def Canon (p : Path) : Bool := canonFrom false p.steps
 
+/-! ## what the code evaluates outside the Canon domain (KF-C14-a, stated exactly) -/
+
+/-- one step of cancelling: `.` disappears, `..` deletes the step before it (unless that is
+    itself a `..`), a leading `..` stays only on a relative path; `acc` is reversed -/
+def cancelStep (top : Bool) (acc : List Step) (s : Step) : List Step :=
+  match s with
+  | .here => acc
+  | .up =>
+    match acc with
+    | [] => if top then [] else [.up]
+    | .up :: _ => .up :: acc
+    | _ :: rest => rest
+  | s => s :: acc
+
+/-- the path with every `X/..` pair (and every `.`) deleted -/
+def cancel (p : Path) : Path :=
+  { top := p.top, steps := (p.steps.foldl (cancelStep p.top) []).reverse }
+
 /-! ## compilation to the operation list `tokenize` is documented (by test_tokenize) to produce,
     before canonicalisation -/
 
